@@ -99,6 +99,22 @@ def run(tier, seed):
     ints = [0, 1, 5, 7, 15, 50, 99, 100, 12345, 33, 1234567]
     outs = realcode.eval_formulas(['=%d%%' % z for z in ints], {})
     chk.judge('percent-literals', [('pct I%d' % z, o, {'formula': '=%d%%' % z}) for z, o in zip(ints, outs)])
+    ov_items = [(d, e) for d, e in items if e < 0][:60]
+    for mode in MODES:
+        for k in (0, 1, 2):
+            forms = ['=%s(A%d,%d)' % (XL[mode], r + 1, k) for r in range(len(ov_items))]
+            ov = {(0, r): float(dec_text(d, e)) for r, (d, e) in enumerate(ov_items)}
+            outs = realcode.eval_formulas(forms, {(0, r): 7 for r in range(len(ov_items))}, overrides=ov)
+            chk.judge('round-override-literal-digits', [('rnd %s I%d I%d %s I%d' % (mode, d, e, core.enc(ov[(0, r)]), k), outs[r], {'formula': forms[r], 'override A': dec_text(d, e)})
+                                                        for r, (d, e) in enumerate(ov_items)])
+    tiny = [(15, -16), (25, -16), (14, -16), (123456, -20), (5, -15), (999, -18), (-15, -16), (1, -15)]
+    cases = []
+    for d, e in tiny:
+        x = float(dec_text(d, e))
+        for mode in MODES:
+            for n in (14, 15, 16, 17, 20):
+                cases.append(('rnd %s I%d I%d %s I%d' % (mode, d, e, core.enc(x), n), core.outcome(fns[mode], x, n), {'fn': XL[mode], 'number': dec_text(d, e), 'digits': n}))
+    chk.judge('round-many-digits', cases)
     end_to_end(chk, g, tier, fns)
     return chk.finish()
 
